@@ -120,7 +120,7 @@ fn op_line(c: &Case) -> String {
 
 fn parse_line(line: &str) -> Option<Case> {
     let t: Vec<&str> = line.split(' ').collect();
-    if t.first() != Some(&"d") {
+    if t.first() != Some(&"d") && t.first() != Some(&"e") {
         return None;
     }
     let k: usize = t.get(1)?.parse().ok()?;
@@ -237,6 +237,79 @@ fn convert(records: &[Change]) -> (String, Vec<Rec>) {
         }
     }
     (if obs.is_empty() { "none".into() } else { obs.join(",") }, recs)
+}
+
+/// a `Recorder` that also logs every delegate call (the change WITHOUT its path: the path is what the
+/// `Recorder` makes of the calls)
+struct Logging {
+    inner: gix_diff::tree::Recorder,
+    log: Vec<String>,
+}
+
+impl gix_diff::tree::Visit for Logging {
+    fn pop_front_tracked_path_and_set_current(&mut self) {
+        self.log.push("F".into());
+        self.inner.pop_front_tracked_path_and_set_current()
+    }
+    fn push_back_tracked_path_component(&mut self, component: &gix_object::bstr::BStr) {
+        self.log.push(format!("B:{}", hex(component)));
+        self.inner.push_back_tracked_path_component(component)
+    }
+    fn push_path_component(&mut self, component: &gix_object::bstr::BStr) {
+        self.log.push(format!("P:{}", hex(component)));
+        self.inner.push_path_component(component)
+    }
+    fn pop_path_component(&mut self) {
+        self.log.push("O".into());
+        self.inner.pop_path_component()
+    }
+    fn visit(&mut self, change: gix_diff::tree::visit::Change) -> gix_diff::tree::visit::Action {
+        use gix_diff::tree::visit::Change as V;
+        self.log.push(match &change {
+            V::Addition { entry_mode, oid, relation } => format!("VA:{:o}:{}:{}", entry_mode.0, hex(oid.as_bytes()), rel_str(relation)),
+            V::Deletion { entry_mode, oid, relation } => format!("VD:{:o}:{}:{}", entry_mode.0, hex(oid.as_bytes()), rel_str(relation)),
+            V::Modification { previous_entry_mode, previous_oid, entry_mode, oid } => {
+                format!("VM:{:o}:{}:{:o}:{}", previous_entry_mode.0, hex(previous_oid.as_bytes()), entry_mode.0, hex(oid.as_bytes()))
+            }
+        });
+        self.inner.visit(change)
+    }
+}
+
+/// the delegate calls of one diff, in order (`!err` appended when the walk returned an error)
+fn run_events(c: &Case) -> String {
+    let mut store = Store(HashMap::new(), None);
+    for (id, es) in &c.trees {
+        if Some(id) == c.missing.as_ref() {
+            continue;
+        }
+        store.0.insert(ObjectId::from_bytes_or_panic(id), raw_tree(es));
+    }
+    let a = store.0.get(&ObjectId::from_bytes_or_panic(&c.a)).cloned();
+    let b = store.0.get(&ObjectId::from_bytes_or_panic(&c.b)).cloned();
+    let (Some(a), Some(b)) = (a, b) else {
+        return "err:root".into();
+    };
+    let res = catch(|| {
+        let mut d = Logging { inner: gix_diff::tree::Recorder::default(), log: Vec::new() };
+        let r = gix_diff::tree(
+            gix_object::TreeRefIter::from_bytes(&a),
+            gix_object::TreeRefIter::from_bytes(&b),
+            gix_diff::tree::State::default(),
+            &store,
+            &mut d,
+        );
+        (r.is_ok(), d.log)
+    });
+    match res {
+        Err(_) => "panic".into(),
+        Ok((ok, mut log)) => {
+            if !ok {
+                log.push("!err".into());
+            }
+            if log.is_empty() { "none".into() } else { log.join(",") }
+        }
+    }
 }
 
 /// how one diff of a sequence on ONE re-used `State` is run
@@ -617,6 +690,9 @@ fn do_case(rep: &mut Report, git: &mut GitOracle, c: &Case, with_git: bool, clas
     let line = op_line(c);
     let (obs, recs) = run_real(c);
     rep.case(&line, &obs, true);
+    // the same input once more: the delegate calls themselves, against the model's `diffEv`
+    let eline = format!("e{}", &line[1..]);
+    rep.case(&eline, &run_events(c), true);
     rep.bucket(&format!("case:{class}:{}", match &recs { None => obs.clone(), Some(r) if r.is_empty() => "no-change".into(), Some(_) => "changes".into() }));
     let Some(recs) = recs else {
         if c.missing.is_none() {
